@@ -79,6 +79,7 @@ def s_case(draw, max_len=5, max_steps=40):
     load['c0'] = mdl.stall_out * mult * draw(st.sampled_from([1, 1, -1]))
     case['load'] = load
     case['init'] = G.s_init(draw, mdl)
+    G.add_variants(draw, case)
     case['motor']['pwm0'] = draw(st.sampled_from([1, 1, 1, 0.5, -1, 0, -0.5, 0.0]))
     if draw(st.integers(0, 5)) == 0 and case['motor']['pwm0']:
         # a constant load a hair above (or below) stall, from rest: the net torque and the back-driven speed are tiny
